@@ -7,7 +7,7 @@ so runs are independent.
 import sys
 
 from traits.api import (HasTraits, Int, CInt, String, Str, List, Dict, Set,
-                        Instance, TraitType)
+                        Instance, TraitType, Union)
 
 from .values import CUR
 
@@ -41,6 +41,16 @@ class Checked(TraitType):
         if type(value) is int:
             return value
         self.error(object, name, value)
+
+
+class UHolder(HasTraits):
+    """Containers inside a compound trait: the class has no ``<name>_items``
+    companion trait for them (the first mutation adds one to the instance), and
+    no recorder is ever attached to this object, so it starts without any
+    instance trait."""
+    ul = Union(List(Int), None)
+    ud = Union(Dict(Str, Int), None)
+    us = Union(Set(Int), None)
 
 
 BOUNDS = [(0, 4), (1, 3), (2, 6), (0, sys.maxsize)]
